@@ -47,7 +47,9 @@ class SimCF:
         self.mems = []
         for m in profile.get('mems', []):
             self.mems.append({'type': m['type'], 'size': m['size'], 'addr': bytes.fromhex(m.get('addr', '00' * 8)),
-                              'data': bytearray(bytes.fromhex(m['data'])) if 'data' in m else bytearray(m['size'])})
+                              'origin': m.get('origin', 0),
+                              'data': bytearray(bytes.fromhex(m['data'])) if 'data' in m else
+                              bytearray(m.get('len', m['size']))})
         self.blocks = {}
         self.rx = []               # (t, header, data) every packet received
         self.now = lambda: 0.0
@@ -343,6 +345,10 @@ class SimCF:
         return (hdr(PORT_PARAM, 3), bytes([1]) + struct.pack('<H', idx) + self.param_value_bytes(idx))
 
     # -------------------------------------------------------------- mem
+    def _in_range(self, mid, addr, ln):
+        m = self.mems[mid]
+        return m['origin'] <= addr and addr + ln <= m['origin'] + len(m['data'])
+
     def _mem(self, chan, data):
         if chan == 0:
             cmd = data[0]
@@ -363,7 +369,7 @@ class SimCF:
             h = hdr(PORT_MEM, 1)
             k = self._n('mem_read')
             status = 0
-            if mid >= len(self.mems) or addr + ln > self.mems[mid]['size'] or ln > 24:
+            if mid >= len(self.mems) or ln > 24 or not self._in_range(mid, addr, ln):
                 status = EIO
             forced = self._hook('mem_status', 'read', mid, addr, k)
             if forced:
@@ -371,21 +377,23 @@ class SimCF:
             self.events.append(('mem_read', mid, addr, ln, status))
             if status:
                 return [(h, data[:5] + bytes([status]))]
-            return [(h, data[:5] + bytes([0]) + bytes(self.mems[mid]['data'][addr:addr + ln]))]
+            o = self.mems[mid]['origin']
+            return [(h, data[:5] + bytes([0]) + bytes(self.mems[mid]['data'][addr - o:addr - o + ln]))]
         if chan == 2:
             mid, addr = struct.unpack('<BI', data[:5])
             body = data[5:]
             h = hdr(PORT_MEM, 2)
             k = self._n('mem_write')
             status = 0
-            if mid >= len(self.mems) or addr + len(body) > self.mems[mid]['size']:
+            if mid >= len(self.mems) or not self._in_range(mid, addr, len(body)):
                 status = EIO
             forced = self._hook('mem_status', 'write', mid, addr, k)
             if forced:
                 status = forced
             self.events.append(('mem_write', mid, addr, bytes(body), status))
             if status == 0:
-                self.mems[mid]['data'][addr:addr + len(body)] = body
+                o = self.mems[mid]['origin']
+                self.mems[mid]['data'][addr - o:addr - o + len(body)] = body
             return [(h, data[:5] + bytes([status]))]
         return []
 
